@@ -454,10 +454,16 @@ func (st *Runtime) executeList(list *ListNode) (returnValue reflect.Value) {
 				}
 			}
 
+			// a construct that did not return anything must not discard
+			// the value of an earlier {{return}} in this list
 			if isTrue(st.evalPrimaryExpressionGroup(node.Expression)) {
-				returnValue = st.executeList(node.List)
+				if v := st.executeList(node.List); v.IsValid() {
+					returnValue = v
+				}
 			} else if node.ElseList != nil {
-				returnValue = st.executeList(node.ElseList)
+				if v := st.executeList(node.ElseList); v.IsValid() {
+					returnValue = v
+				}
 			}
 			if isLet {
 				st.releaseScope()
@@ -526,7 +532,9 @@ func (st *Runtime) executeList(list *ListNode) (returnValue reflect.Value) {
 					indexValue, rangeValue, end = ranger.Range()
 				}
 			} else if node.ElseList != nil {
-				returnValue = st.executeList(node.ElseList)
+				if v := st.executeList(node.ElseList); v.IsValid() {
+					returnValue = v
+				}
 			}
 			cleanup()
 			st.context = context
@@ -535,7 +543,9 @@ func (st *Runtime) executeList(list *ListNode) (returnValue reflect.Value) {
 			}
 		case NodeTry:
 			node := node.(*TryNode)
-			returnValue = st.executeTry(node)
+			if v := st.executeTry(node); v.IsValid() {
+				returnValue = v
+			}
 		case NodeYield:
 			node := node.(*YieldNode)
 			if node.IsContent {
@@ -558,7 +568,9 @@ func (st *Runtime) executeList(list *ListNode) (returnValue reflect.Value) {
 			st.executeYieldBlock(block, block.Parameters, block.Parameters, block.Expression, block.Content)
 		case NodeInclude:
 			node := node.(*IncludeNode)
-			returnValue = st.executeInclude(node)
+			if v := st.executeInclude(node); v.IsValid() {
+				returnValue = v
+			}
 		case NodeReturn:
 			node := node.(*ReturnNode)
 			returnValue = st.evalPrimaryExpressionGroup(node.Value)
